@@ -11,7 +11,7 @@ CONSTANTS MaxFills,
 
 Qs == { -3, -1, 1, 2 }
 Ps == { 8000, 10500, 12250 }
-Cs == { 0, 125, 1040 }
+Cs == { -125, 0, 125, 1040 }     \* a negative commission is a rebate ("any commissions")
 
 VARIABLES P, n, last,     \* the position (NoPos when absent), number of fills so far, last step kind
           view            \* derived: what the Position object's properties must answer
